@@ -335,6 +335,34 @@ int main() {
       if (n == 5 && m > 400000) break; /* the first 400000 five-vertex graphs (ascending edge masks) */
     }
   }
+  /* structured families on which path counts explode: ladders of completely connected layers of width 2 and 3
+     (up to 10 layers), every source; and 20000 pseudo-random digraphs with 6..9 vertices (fixed seed) */
+  for (int w = 2; w <= 3; ++w) for (int layers = 1; layers <= 10; ++layers) {
+    int n = 2 + w * layers; CountingGraph<NoLabel> g(n); long E = 0;
+    for (int k = 0; k < w; ++k) { g.addEdge(0, 1 + k); ++E; g.addEdge(1 + w * (layers - 1) + k, n - 1); ++E; }
+    for (int l = 0; l + 1 < layers; ++l) for (int a = 0; a < w; ++a) for (int b = 0; b < w; ++b) { g.addEdge(1 + w * l + a, 1 + w * (l + 1) + b); ++E; }
+    for (int s = 0; s < n; ++s) {
+      ++calls; scans = 0; algorithms::findAllVertexPredecessors(g, s);
+      if (scans > n + E) {
+        printf("CLAUSE FALSE ON THE REAL CODE: bfsall.scans (C19): more neighbourhood scans than V+E\\n  graph: ladder of %d completely connected layers of width %d between vertex 0 and vertex %d\\n  call: findAllVertexPredecessors(g, %d): %ld scans, V+E = %ld\\n", layers, w, n - 1, s, scans, n + E);
+        return 1;
+      }
+    }
+  }
+  unsigned long long rng = 88172645463325252ull;
+  for (int t = 0; t < 20000; ++t) {
+    rng ^= rng << 13; rng ^= rng >> 7; rng ^= rng << 17;
+    int n = 6 + (int)(rng % 4); CountingGraph<NoLabel> g(n); long E = 0; unsigned long long bits = rng;
+    for (int i = 0; i < n; ++i) for (int j = 0; j < n; ++j) { bits ^= bits << 13; bits ^= bits >> 7; bits ^= bits << 17; if (bits % 3 == 0) { g.addEdge(i, j); ++E; } }
+    int s = (int)((rng >> 20) % n);
+    ++calls; scans = 0; algorithms::findAllVertexPredecessors(g, s);
+    if (scans > n + E) {
+      printf("CLAUSE FALSE ON THE REAL CODE: bfsall.scans (C19): more neighbourhood scans than V+E\\n  graph: pseudo-random digraph #%d with %d vertices, edges", t, n);
+      for (int i = 0; i < n; ++i) for (auto j : g.LabeledDirectedGraph<NoLabel>::getOutNeighbours(i)) printf(" (%d,%u)", i, j);
+      printf("\\n  call: findAllVertexPredecessors(g, %d): %ld scans, V+E = %ld\\n", s, scans, n + E);
+      return 1;
+    }
+  }
   printf("%ld searches replayed\\n", calls);
   return 0;
 }
@@ -358,7 +386,7 @@ int main() {
             pass
     found = code != 0
     return found, header + '// result: %s\n/* output of the replay on the real code:\n%s\n*/\n%s' % (
-        'FAILING INPUT FOUND (exit %d)' % code if found else 'no failing input among all simple digraphs with <= 4 vertices and 400000 with 5',
+        'FAILING INPUT FOUND (exit %d)' % code if found else 'no failing input among all simple digraphs with <= 4 vertices, 400000 with 5, ladders of width 2-3 up to 10 layers, 20000 pseudo-random digraphs with 6-9 vertices',
         '\n'.join(out.strip().split('\n')[-20:]).replace('*/', '* /'), src)
 
 
